@@ -20,7 +20,8 @@ def tr (st : St) : List Ev := st.log.map (·.1)
 def startOk : Option Ev → Ev → Bool
   | none, e => e == .gws
   | some .ged, e => e == .gws          -- a new game after the previous one ended
-  | some p, e => follows p e
+  | some .abt, e => e == .gws          -- ... or was stopped from outside
+  | some p, e => e == .abt || follows p e   -- the mode may be stopped from outside at any point of a running game
 
 def okFrom : Option Ev → List Ev → Bool
   | _, [] => true
@@ -88,7 +89,7 @@ theorem resume_spec (st st' : St) (h : resume st = some st') :
       by_cases hev : st.endEv = true <;> simp [hp, hev] at h
       subst h
       simp [follows, hev, tr, emit]
-    case ged => simp [hp] at h
+    case ged | abt => simp [hp] at h
     case gsg =>
       by_cases hc : st.checked = true <;> by_cases he : st.ending = true <;> by_cases h0 : st.players = 0 <;>
         simp [hp, hc, he, h0] at h <;> subst h <;> simp [follows, he, tr, emit]
@@ -102,10 +103,66 @@ theorem resume_spec (st st' : St) (h : resume st = some st') :
     all_goals (try (intro h1; omega))
     all_goals (try (intro _; exact hb))
 
+/-- what the tilt mode's requests leave alone: everything but `tilted`, `slam`, the end-of-ball event and the warnings -/
+structure Frame (st st' : St) : Prop where
+  pc : st'.pc = st.pc
+  log : st'.log = st.log
+  bip : st'.bip = st.bip
+  known : st'.known = st.known
+  bpg : st'.bpg = st.bpg
+  balls : st'.balls = st.balls
+  cur : st'.cur = st.cur
+  players : st'.players = st.players
+  pend : st'.pendAdds = st.pendAdds
+  started : st'.started = st.started
+  extra : st'.extra = st.extra
+  firstBalls : st'.firstBalls = st.firstBalls
+  awarded : st'.awarded = st.awarded
+  ending : st'.ending = st.ending
+  maxPlayers : st'.maxPlayers = st.maxPlayers
+
+theorem tiltNow_frame (st : St) : Frame st (tiltNow st) := by
+  unfold tiltNow
+  split <;> constructor <;> rfl
+
+theorem tiltWarn_frame (st : St) : Frame st (tiltWarn st) := by
+  unfold tiltWarn
+  split
+  · constructor <;> rfl
+  · split
+    · have h := tiltNow_frame { st with warn := setAt st.warn st.cur (st.warn st.cur + 1) }
+      exact ⟨h.pc, h.log, h.bip, h.known, h.bpg, h.balls, h.cur, h.players, h.pend, h.started, h.extra, h.firstBalls,
+        h.awarded, h.ending, h.maxPlayers⟩
+    · constructor <;> rfl
+
+/-- the steps of the tilt mode, as a frame -/
+theorem tilt_steps_frame (st st' : St) (op : Op)
+    (hop : op = .tilt ∨ op = .slamTilt ∨ op = .tiltWarn ∨ op = .warnReset ∨ op = .tiltClear)
+    (h : step st op = some st') : Frame st st' := by
+  rcases hop with rfl | rfl | rfl | rfl | rfl
+  · simp only [step] at h; split at h
+    · cases h
+    · cases h; exact tiltNow_frame st
+  · simp only [step] at h; split at h
+    · cases h
+    · cases h
+      have f := tiltNow_frame { st with slam := true }
+      exact ⟨f.pc, f.log, f.bip, f.known, f.bpg, f.balls, f.cur, f.players, f.pend, f.started, f.extra, f.firstBalls,
+        f.awarded, f.ending, f.maxPlayers⟩
+  · simp only [step] at h; split at h
+    · cases h
+    · cases h; exact tiltWarn_frame st
+  · simp only [step] at h; split at h
+    · cases h
+    · split at h <;> cases h <;> constructor <;> rfl
+  · simp only [step] at h; split at h
+    · cases h
+    · cases h; constructor <;> rfl
+
 def pcOk (st : St) : Prop :=
   match st.pc with
   | some e => lastOf none (tr st) = some e
-  | none => lastOf none (tr st) = none ∨ lastOf none (tr st) = some .ged
+  | none => lastOf none (tr st) = none ∨ lastOf none (tr st) = some .ged ∨ lastOf none (tr st) = some .abt
 
 structure GInv (st : St) : Prop where
   chain : okFrom none (tr st) = true
@@ -121,7 +178,9 @@ theorem ginv_env (st st' : St) (hI : GInv st) (ht : tr st' = tr st) (hpc : st'.p
   rw [hpc, ht]
   exact this
 
-theorem step_ginv (st st' : St) (op : Op) (hI : GInv st) (h : step st op = some st') : GInv st' ∧ st'.known = st.known := by
+theorem step_ginv (st st' : St) (op : Op) (hI : GInv st) (h : step st op = some st') : GInv st' := by
+  have fr : ∀ s : St, Frame st s → GInv s := fun s f =>
+    ginv_env st s hI (by simp [tr, f.log]) f.pc (by rw [f.bip, f.known]; exact hI.bip)
   cases op with
   | start =>
     simp only [step] at h
@@ -133,12 +192,12 @@ theorem step_ginv (st st' : St) (op : Op) (hI : GInv st) (h : step st op = some 
       have hl := hI.pc
       simp only [pcOk, hpn] at hl
       have e1 : ∀ s : St, s.log = st.log → tr s = tr st := fun s h => by simp [tr, h]
-      refine ⟨⟨?_, ?_, by simp [emit]⟩, rfl⟩
+      refine ⟨?_, ?_, by simp [emit]⟩
       · have hc := hI.chain
         rw [emit_tr]
         simp only [tr] at hc hl ⊢
         rw [okFrom_snoc, hc]
-        rcases hl with hl | hl <;> simp [hl, startOk]
+        rcases hl with hl | hl | hl <;> simp [hl, startOk]
       · simp only [pcOk, emit_pc]
         rw [emit_tr, lastOf_snoc]
   | resume =>
@@ -146,82 +205,116 @@ theorem step_ginv (st st' : St) (op : Op) (hI : GInv st) (h : step st op = some 
     obtain ⟨p, e, hp, hpe, htr, hf, _, _, hk, hb⟩ := resume_spec st st' h
     have hl := hI.pc
     simp only [pcOk, hp] at hl
-    refine ⟨⟨?_, ?_, hb (hI.bip)⟩, hk⟩
+    refine ⟨?_, ?_, hb (hI.bip)⟩
     · rw [htr, okFrom_snoc, hI.chain, hl]
       cases p <;> simp [startOk, hf] <;> simp [follows] at hf
     · simp only [pcOk, hpe, htr, lastOf_snoc]
   | endBall =>
     simp only [step] at h; split at h
     · cases h
-    · cases h; exact ⟨ginv_env st _ hI rfl rfl hI.bip, rfl⟩
+    · cases h; exact ginv_env st _ hI rfl rfl hI.bip
   | endGame =>
     simp only [step] at h; split at h
     · cases h
-    · cases h; exact ⟨ginv_env st _ hI rfl rfl hI.bip, rfl⟩
+    · cases h; exact ginv_env st _ hI rfl rfl hI.bip
   | slam =>
     simp only [step] at h; split at h
     · cases h
-    · cases h; exact ⟨ginv_env st _ hI rfl rfl hI.bip, rfl⟩
+    · cases h; exact ginv_env st _ hI rfl rfl hI.bip
   | setBip n =>
     simp only [step] at h; split at h
     · cases h
-    · cases h; exact ⟨ginv_env st _ hI rfl rfl (setBipTo_le st n), rfl⟩
+    · cases h; exact ginv_env st _ hI rfl rfl (setBipTo_le st n)
   | drain n =>
     simp only [step] at h; split at h
     · cases h
       split
-      · exact ⟨hI, rfl⟩
-      · exact ⟨ginv_env st _ hI rfl rfl (setBipTo_le st _), rfl⟩
+      · exact hI
+      · exact ginv_env st _ hI rfl rfl (setBipTo_le st _)
     · cases h
   | extraBall =>
     simp only [step] at h; split at h
     · cases h
-    · cases h; exact ⟨ginv_env st _ hI rfl rfl hI.bip, rfl⟩
+    · cases h; exact ginv_env st _ hI rfl rfl hI.bip
   | addPlayer =>
     simp only [step] at h; split at h
     · cases h
     · split at h
-      · cases h; exact ⟨hI, rfl⟩
-      · cases h; exact ⟨ginv_env st _ hI rfl rfl hI.bip, rfl⟩
+      · cases h; exact hI
+      · cases h; exact ginv_env st _ hI rfl rfl hI.bip
   | addAccepted =>
     simp only [step, stepAdd] at h; split at h
     · cases h
-    · cases h; exact ⟨ginv_env st _ hI rfl rfl hI.bip, rfl⟩
+    · cases h; exact ginv_env st _ hI rfl rfl hI.bip
   | startCheck =>
     simp only [step] at h; split at h
-    · cases h; exact ⟨ginv_env st _ hI rfl rfl hI.bip, rfl⟩
+    · cases h; exact ginv_env st _ hI rfl rfl hI.bip
     · cases h
   | addRejected =>
     simp only [step, stepAdd] at h; split at h
     · cases h
-    · cases h; exact ⟨hI, rfl⟩
+    · cases h; exact hI
   | playerAdded =>
     simp only [step, stepAdd] at h; split at h
     · cases h
-    · cases h; exact ⟨ginv_env st _ hI rfl rfl hI.bip, rfl⟩
+    · cases h; exact ginv_env st _ hI rfl rfl hI.bip
   | finish =>
     simp only [step] at h; split at h
     · rename_i hg
       cases h
       have hl := hI.pc
       simp only [pcOk, hg] at hl
-      refine ⟨⟨hI.chain, ?_, hI.bip⟩, rfl⟩
+      refine ⟨hI.chain, ?_, hI.bip⟩
       simp only [pcOk]
-      exact Or.inr hl
+      exact Or.inr (Or.inl hl)
     · cases h
+  | tilt => exact fr _ (tilt_steps_frame st st' _ (Or.inl rfl) h)
+  | slamTilt => exact fr _ (tilt_steps_frame st st' _ (Or.inr (Or.inl rfl)) h)
+  | tiltWarn => exact fr _ (tilt_steps_frame st st' _ (Or.inr (Or.inr (Or.inl rfl))) h)
+  | warnReset => exact fr _ (tilt_steps_frame st st' _ (Or.inr (Or.inr (Or.inr (Or.inl rfl)))) h)
+  | tiltClear => exact fr _ (tilt_steps_frame st st' _ (Or.inr (Or.inr (Or.inr (Or.inr rfl)))) h)
+  | addVetoed =>
+    simp only [step] at h; split at h
+    · cases h
+    · cases h; exact ginv_env st _ hI rfl rfl hI.bip
+  | setKnown n =>
+    simp only [step] at h; split at h
+    · rename_i hn
+      cases h
+      exact ginv_env st _ hI rfl rfl (Nat.le_trans hI.bip hn)
+    · cases h
+  | config b m =>
+    simp only [step] at h; split at h
+    · cases h; exact ginv_env st _ hI rfl rfl hI.bip
+    · cases h
+  | abort =>
+    simp only [step] at h; split at h
+    · cases h
+    · rename_i hg
+      cases h
+      cases hp : st.pc with
+      | none => simp [hp] at hg
+      | some p =>
+        have hl := hI.pc
+        simp only [pcOk, hp] at hl
+        have hne : p ≠ .ged ∧ p ≠ .abt := by
+          constructor <;> (intro hx; subst hx; simp [hp] at hg)
+        refine ⟨?_, ?_, hI.bip⟩
+        · have hc := hI.chain
+          simp only [tr, List.map_append, List.map_cons, List.map_nil] at hc hl ⊢
+          rw [okFrom_snoc, hc, hl]
+          cases p <;> simp [startOk] <;> simp at hne
+        · simp only [pcOk, tr, List.map_append, List.map_cons, List.map_nil, lastOf_snoc]
+          first | exact Or.inr (Or.inr rfl) | simp
 
-theorem run_ginv (st : St) (ops : List Op) (hI : GInv st) : GInv (run st ops) ∧ (run st ops).known = st.known := by
+theorem run_ginv (st : St) (ops : List Op) (hI : GInv st) : GInv (run st ops) := by
   induction ops generalizing st with
-  | nil => exact ⟨hI, rfl⟩
+  | nil => exact hI
   | cons op r ih =>
     simp only [run]
     cases hs : step st op with
     | none => simpa using ih st hI
-    | some st' =>
-      obtain ⟨h1, h2⟩ := step_ginv st st' op hI hs
-      obtain ⟨h3, h4⟩ := ih st' h1
-      simp only [Option.getD_some]
-      exact ⟨h3, h4.trans h2⟩
+    | some st' => simpa using ih st' (step_ginv st st' op hI hs)
 
 /-- no game yet: balls_per_game `b`, max_players `m`, num_balls_known `k` -/
 def start0 (b m k : Nat) : St := { bpg := b, maxPlayers := m, known := k }
@@ -429,7 +522,7 @@ theorem resume_binv (st st' : St) (hI : BInv st) (h : resume st = some st') : BI
       by_cases hev : st.endEv = true <;> simp [hp, hev] at h
       subst h
       refine binv_keep st _ hI rfl rfl rfl rfl (fun h => h) ?_ ?_ ?_ <;> simp [pre, inTurn, hp, emit]
-    case ged => simp [hp] at h
+    case ged | abt => simp [hp] at h
     case gsg =>
       by_cases hc : st.checked = true <;> by_cases he : st.ending = true <;> by_cases h0 : st.players = 0 <;>
         simp [hp, hc, he, h0] at h <;> subst h <;>
@@ -532,6 +625,42 @@ theorem step_binv (st st' : St) (op : Op) (hI : BInv st) (h : step st op = some 
     · cases h; exact keep _ rfl rfl rfl rfl rfl rfl
     · cases h
 
+  | tilt | slamTilt | tiltWarn | warnReset | tiltClear =>
+    have f : Frame st st' := by
+      first
+        | exact tilt_steps_frame st st' _ (Or.inl rfl) h
+        | exact tilt_steps_frame st st' _ (Or.inr (Or.inl rfl)) h
+        | exact tilt_steps_frame st st' _ (Or.inr (Or.inr (Or.inl rfl))) h
+        | exact tilt_steps_frame st st' _ (Or.inr (Or.inr (Or.inr (Or.inl rfl)))) h
+        | exact tilt_steps_frame st st' _ (Or.inr (Or.inr (Or.inr (Or.inr rfl)))) h
+    exact keep _ f.bpg f.balls f.cur f.players f.pend f.pc
+  | addVetoed =>
+    simp only [step] at h; split at h
+    · cases h
+    · cases h
+      exact binv_keep st _ hI rfl rfl rfl rfl (fun hx => by simp only at hx; omega) (fun x => x) (fun x => x) hI.preD
+  | setKnown n =>
+    simp only [step] at h; split at h
+    · cases h; exact keep _ rfl rfl rfl rfl rfl rfl
+    · cases h
+  | config b m =>
+    simp only [step] at h; split at h
+    · rename_i hg
+      cases h
+      simp only [Bool.and_eq_true, decide_eq_true_eq] at hg
+      have hpn : st.pc = none := by cases hx : st.pc <;> simp [hx] at hg ⊢
+      refine ⟨hg.2, fun _ => Nat.zero_le _, fun _ _ => rfl, ?_, ?_, ?_, ?_⟩
+      · intro hx; simp [pre, hpn] at hx
+      · intro hx; simp [hpn] at hx
+      · intro hx; simp [inTurn, hpn] at hx
+      · intro _ hx; simp at hx
+    · cases h
+  | abort =>
+    simp only [step] at h; split at h
+    · cases h
+    · cases h
+      refine binv_leave st _ hI rfl rfl rfl rfl ?_ ?_ <;> simp [pre, inTurn]
+
 theorem run_binv (st : St) (ops : List Op) (hI : BInv st) : BInv (run st ops) := by
   induction ops generalizing st with
   | nil => exact hI
@@ -572,7 +701,7 @@ theorem resume_acc (st st' : St) (hA : Acc st) (h : resume st = some st') : Acc 
     case bsd =>
       by_cases hev : st.endEv = true <;> simp [hp, hev] at h
       subst h; exact hA
-    case ged => simp [hp] at h
+    case ged | abt => simp [hp] at h
     case gsg =>
       by_cases hc : st.checked = true <;> by_cases he : st.ending = true <;> by_cases h0 : st.players = 0 <;>
         simp [hp, hc, he, h0] at h <;> subst h <;> exact hA
@@ -613,6 +742,22 @@ theorem step_acc (st st' : St) (op : Op) (hA : Acc st) (h : step st op = some st
   | addRejected => simp only [step, stepAdd] at h; split at h <;> cases h; exact hA
   | playerAdded => simp only [step, stepAdd] at h; split at h <;> cases h; exact hA
 
+  | tilt | slamTilt | tiltWarn | warnReset | tiltClear =>
+    have f : Frame st st' := by
+      first
+        | exact tilt_steps_frame st st' _ (Or.inl rfl) h
+        | exact tilt_steps_frame st st' _ (Or.inr (Or.inl rfl)) h
+        | exact tilt_steps_frame st st' _ (Or.inr (Or.inr (Or.inl rfl))) h
+        | exact tilt_steps_frame st st' _ (Or.inr (Or.inr (Or.inr (Or.inl rfl)))) h
+        | exact tilt_steps_frame st st' _ (Or.inr (Or.inr (Or.inr (Or.inr rfl)))) h
+    intro q
+    rw [f.started, f.extra, f.firstBalls, f.awarded]
+    exact hA q
+  | addVetoed => simp only [step] at h; split at h <;> cases h; exact hA
+  | setKnown n => simp only [step] at h; split at h <;> cases h; exact hA
+  | config b m => simp only [step] at h; split at h <;> cases h; exact hA
+  | abort => simp only [step] at h; split at h <;> cases h; exact hA
+
 theorem run_acc (st : St) (ops : List Op) (hA : Acc st) : Acc (run st ops) := by
   induction ops generalizing st with
   | nil => exact hA
@@ -623,7 +768,9 @@ theorem run_acc (st : St) (ops : List Op) (hA : Acc st) : Acc (run st ops) := by
     | some st' => simpa using ih st' (step_acc st st' op hA hs)
 
 
-theorem resume_bpg (st st' : St) (h : resume st = some st') : st'.bpg = st.bpg := by
+/-- one resumption keeps the configuration and the tilt mode's flags -/
+theorem resume_keeps (st st' : St) (h : resume st = some st') :
+    st'.bpg = st.bpg ∧ st'.maxPlayers = st.maxPlayers ∧ st'.slam = st.slam ∧ st'.tilted = st.tilted ∧ st'.warnTo = st.warnTo := by
   unfold resume at h
   split at h
   · cases h
@@ -633,52 +780,117 @@ theorem resume_bpg (st st' : St) (h : resume st = some st') : st'.bpg = st.bpg :
     cases p
     case gsd | pted =>
       by_cases he : st.ending = true <;> by_cases hs : st.slam = true <;> by_cases hl : st.balls st.cur ≥ st.bpg <;>
-        simp [hp, he, hs, hl, loopCheck] at h <;> (try split at h) <;> (try simp at h) <;> subst h <;> rfl
+        simp [hp, he, hs, hl, loopCheck] at h <;> (try split at h) <;> (try simp at h) <;> subst h <;>
+        first | exact ⟨rfl, rfl, rfl, rfl, rfl⟩ | (refine ⟨rfl, rfl, ?_, rfl, rfl⟩; simp [emit, hs])
     case ptsd | bed =>
       by_cases he : st.ending = true <;> by_cases hs : st.slam = true <;> by_cases hx : st.extra st.cur > 0 <;>
-        simp [hp, he, hs, hx, extraCheck, startBall] at h <;> subst h <;> rfl
+        simp [hp, he, hs, hx, extraCheck, startBall] at h <;> subst h <;> first | exact ⟨rfl, rfl, rfl, rfl, rfl⟩ | (refine ⟨rfl, rfl, ?_, rfl, rfl⟩; simp [emit, hs])
     case bsd =>
       by_cases hev : st.endEv = true <;> simp [hp, hev] at h
-      subst h; rfl
-    case ged => simp [hp] at h
+      subst h; first | exact ⟨rfl, rfl, rfl, rfl, rfl⟩ | (refine ⟨rfl, rfl, ?_, rfl, rfl⟩; simp [emit, hs])
+    case ged | abt => simp [hp] at h
     case gsg =>
       by_cases hc : st.checked = true <;> by_cases he : st.ending = true <;> by_cases h0 : st.players = 0 <;>
-        simp [hp, hc, he, h0] at h <;> subst h <;> rfl
+        simp [hp, hc, he, h0] at h <;> subst h <;> first | exact ⟨rfl, rfl, rfl, rfl, rfl⟩ | (refine ⟨rfl, rfl, ?_, rfl, rfl⟩; simp [emit, hs])
     all_goals
       simp [hp] at h
       subst h
-      rfl
+      first | exact ⟨rfl, rfl, rfl, rfl, rfl⟩ | (refine ⟨rfl, rfl, ?_, rfl, rfl⟩; simp [emit, hs])
 
-theorem step_bpg (st st' : St) (op : Op) (h : step st op = some st') : st'.bpg = st.bpg := by
+theorem tiltNow_slam (st : St) : (tiltNow st).slam = st.slam := by
+  unfold tiltNow; split <;> rfl
+
+theorem tiltWarn_slam (st : St) : (tiltWarn st).slam = st.slam := by
+  unfold tiltWarn
+  split
+  · rfl
+  · split
+    · exact tiltNow_slam _
+    · rfl
+
+/-- the slam-tilt flag survives every step of the game it was set in -/
+theorem step_slam (st st' : St) (op : Op) (hop : op ≠ .start) (hs : st.slam = true) (h : step st op = some st') :
+    st'.slam = true := by
   cases op with
-  | start => simp only [step] at h; split at h <;> cases h; rfl
-  | resume => exact resume_bpg st st' h
-  | extraBall => simp only [step] at h; split at h <;> cases h; rfl
+  | start => exact absurd rfl hop
+  | resume => rw [(resume_keeps st st' h).2.2.1]; exact hs
+  | tilt =>
+    simp only [step] at h; split at h
+    · cases h
+    · cases h; rw [tiltNow_slam]; exact hs
+  | slamTilt =>
+    simp only [step] at h; split at h
+    · cases h
+    · cases h; rw [tiltNow_slam]
+  | tiltWarn =>
+    simp only [step] at h; split at h
+    · cases h
+    · cases h; rw [tiltWarn_slam]; exact hs
+  | warnReset =>
+    simp only [step] at h; split at h
+    · cases h
+    · split at h <;> cases h <;> exact hs
   | drain n =>
     simp only [step] at h; split at h
-    · cases h; split <;> rfl
+    · cases h; split <;> exact hs
     · cases h
   | addPlayer =>
     simp only [step] at h; split at h
     · cases h
-    · split at h <;> cases h <;> rfl
-  | finish => simp only [step] at h; split at h <;> cases h; rfl
-  | startCheck => simp only [step] at h; split at h <;> cases h; rfl
-  | endBall => simp only [step] at h; split at h <;> cases h; rfl
-  | endGame => simp only [step] at h; split at h <;> cases h; rfl
+    · split at h <;> cases h <;> exact hs
+  | addAccepted => simp only [step, stepAdd] at h; split at h <;> cases h; exact hs
+  | addRejected => simp only [step, stepAdd] at h; split at h <;> cases h; exact hs
+  | playerAdded => simp only [step, stepAdd] at h; split at h <;> cases h; exact hs
+  | endBall => simp only [step] at h; split at h <;> cases h; exact hs
+  | endGame => simp only [step] at h; split at h <;> cases h; exact hs
   | slam => simp only [step] at h; split at h <;> cases h; rfl
-  | setBip n => simp only [step] at h; split at h <;> cases h; rfl
-  | addAccepted => simp only [step, stepAdd] at h; split at h <;> cases h; rfl
-  | addRejected => simp only [step, stepAdd] at h; split at h <;> cases h; rfl
-  | playerAdded => simp only [step, stepAdd] at h; split at h <;> cases h; rfl
+  | setBip n => simp only [step] at h; split at h <;> cases h; exact hs
+  | extraBall => simp only [step] at h; split at h <;> cases h; exact hs
+  | finish => simp only [step] at h; split at h <;> cases h; exact hs
+  | startCheck => simp only [step] at h; split at h <;> cases h; exact hs
+  | tiltClear => simp only [step] at h; split at h <;> cases h; exact hs
+  | addVetoed => simp only [step] at h; split at h <;> cases h; exact hs
+  | abort => simp only [step] at h; split at h <;> cases h; exact hs
+  | setKnown n => simp only [step] at h; split at h <;> cases h; exact hs
+  | config b m => simp only [step] at h; split at h <;> cases h; exact hs
 
-theorem run_bpg (st : St) (ops : List Op) : (run st ops).bpg = st.bpg := by
-  induction ops generalizing st with
-  | nil => rfl
-  | cons op r ih =>
-    simp only [run]
-    cases hs : step st op with
-    | none => simpa using ih st
-    | some st' => simpa using (ih st').trans (step_bpg st st' op hs)
+/-- balls_per_game / max_players only change between games -/
+theorem step_config (st st' : St) (op : Op) (hp : st.pc.isSome) (hop : op ≠ .start) (h : step st op = some st') :
+    st'.bpg = st.bpg ∧ st'.maxPlayers = st.maxPlayers := by
+  have fr : Frame st st' → st'.bpg = st.bpg ∧ st'.maxPlayers = st.maxPlayers := fun f => ⟨f.bpg, f.maxPlayers⟩
+  cases op with
+  | start => exact absurd rfl hop
+  | config b m =>
+    simp only [step] at h; split at h
+    · rename_i hg
+      cases hx : st.pc <;> simp [hx] at hg hp
+    · cases h
+  | resume => exact ⟨(resume_keeps st st' h).1, (resume_keeps st st' h).2.1⟩
+  | tilt => exact fr (tilt_steps_frame st st' _ (Or.inl rfl) h)
+  | slamTilt => exact fr (tilt_steps_frame st st' _ (Or.inr (Or.inl rfl)) h)
+  | tiltWarn => exact fr (tilt_steps_frame st st' _ (Or.inr (Or.inr (Or.inl rfl))) h)
+  | warnReset => exact fr (tilt_steps_frame st st' _ (Or.inr (Or.inr (Or.inr (Or.inl rfl)))) h)
+  | tiltClear => exact fr (tilt_steps_frame st st' _ (Or.inr (Or.inr (Or.inr (Or.inr rfl)))) h)
+  | drain n =>
+    simp only [step] at h; split at h
+    · cases h; split <;> exact ⟨rfl, rfl⟩
+    · cases h
+  | addPlayer =>
+    simp only [step] at h; split at h
+    · cases h
+    · split at h <;> cases h <;> exact ⟨rfl, rfl⟩
+  | addAccepted => simp only [step, stepAdd] at h; split at h <;> cases h; exact ⟨rfl, rfl⟩
+  | addRejected => simp only [step, stepAdd] at h; split at h <;> cases h; exact ⟨rfl, rfl⟩
+  | playerAdded => simp only [step, stepAdd] at h; split at h <;> cases h; exact ⟨rfl, rfl⟩
+  | endBall => simp only [step] at h; split at h <;> cases h; exact ⟨rfl, rfl⟩
+  | endGame => simp only [step] at h; split at h <;> cases h; exact ⟨rfl, rfl⟩
+  | slam => simp only [step] at h; split at h <;> cases h; exact ⟨rfl, rfl⟩
+  | setBip n => simp only [step] at h; split at h <;> cases h; exact ⟨rfl, rfl⟩
+  | extraBall => simp only [step] at h; split at h <;> cases h; exact ⟨rfl, rfl⟩
+  | finish => simp only [step] at h; split at h <;> cases h; exact ⟨rfl, rfl⟩
+  | startCheck => simp only [step] at h; split at h <;> cases h; exact ⟨rfl, rfl⟩
+  | addVetoed => simp only [step] at h; split at h <;> cases h; exact ⟨rfl, rfl⟩
+  | abort => simp only [step] at h; split at h <;> cases h; exact ⟨rfl, rfl⟩
+  | setKnown n => simp only [step] at h; split at h <;> cases h; exact ⟨rfl, rfl⟩
 
 end MpfVerif.Game
